@@ -129,6 +129,16 @@ fn share_at(m: &Value, n: usize, t: usize) -> (&'static str, usize, String) {
         "allB" => ("B", t, none()),
         "rotate" => ("A", (t + 1) % n, none()),
         "zeros" => ("Z", 0, none()),
+        "craft" => {
+            // rows of j shares; the first share of row r < 2k carries the min namespace of row root r
+            let k = us(&m["k"]);
+            let r = t / j;
+            if t % j == 0 && r < 2 * k {
+                if r < k { ("A", r * k, none()) } else { ("P", r, none()) }
+            } else {
+                ("A", t % n, none())
+            }
+        }
         _ => tool_error(&format!("unknown mutation kind {kind}")),
     }
 }
@@ -210,6 +220,7 @@ pub fn replay(args: &Args) {
 
         // ---- the payload bytes
         let owned: Vec<u8>;
+        let parity_ns = celestia_types::nmt::Namespace::PARITY_SHARE;
         let payload: &[u8] = if kind == "honest" || kind == "trunc" {
             &sqs.ext[&(k, sv1)][..len * SHARE_SIZE + tail]
         } else {
@@ -220,9 +231,17 @@ pub fn replay(args: &Args) {
             let mut v = Vec::with_capacity(len * SHARE_SIZE);
             for t in 0..len {
                 let (sq, idx, f) = share_at(m, n, t);
+                let par: Vec<u8>;
                 let src = match sq {
                     "A" => &a.ods[idx],
                     "B" => &b.ods[idx],
+                    "P" => {
+                        // the parity share at the start of EDS row idx, carrying the parity namespace
+                        let mut p = a.eds.share(idx as u16, 0).unwrap_or_else(|e| tool_error(&format!("share: {e}"))).to_vec();
+                        p[..parity_ns.as_bytes().len()].copy_from_slice(parity_ns.as_bytes());
+                        par = p;
+                        &par
+                    }
                     _ => &zero,
                 };
                 let at = v.len();
